@@ -343,28 +343,28 @@ Definition do_name (render : string -> nat -> string) (c : cfg) (l : name_leaf) 
   | NNameN pre f => Some (acc ++ map (render pre) (seq 0 (cn c f)))%list
   end.
 (* documented plain name of a slot *)
-Definition slot_name (render : string -> nat -> string) (listpre : string -> string) (s : slot) : string :=
-  match s with SScalar k _ => k | SList k j => render (listpre k) j end.
+Definition slot_name (render : string -> nat -> string) (kname listpre : string -> string) (s : slot) : string :=
+  match s with SScalar k _ => kname k | SList k j => render (listpre k) j end.
 (* the plain-name branch of param_list pairs off with the free slots: same guard plus (latex = false), name = key *)
 Fixpoint drop_lit (l : lit) (g : guard) : guard := match g with [] => [] | x :: r => if lit_eqb x l then r else x :: drop_lit l r end.
-Fixpoint names_compat (listpre : string -> string) (S : list (guard * a2k_leaf)) (N : list (guard * name_leaf)) : bool :=
+Fixpoint names_compat (kname listpre : string -> string) (S : list (guard * a2k_leaf)) (N : list (guard * name_leaf)) : bool :=
   match S with
   | [] => match N with [] => true | _ => false end
-  | (g, AFix _) :: S' | (g, AConst _ _) :: S' => names_compat listpre S' N
+  | (g, AFix _) :: S' | (g, AConst _ _) :: S' => names_compat kname listpre S' N
   | (g, AFree k _) :: S' =>
       match N with
-      | (h, NName s) :: N' => guard_eqb g h && String.eqb k s && names_compat listpre S' N'
+      | (h, NName s) :: N' => guard_eqb g h && String.eqb (kname k) s && names_compat kname listpre S' N'
       | _ => false end
   | (g, AFreeN k f) :: S' =>
       match N with
-      | (h, NNameN pre f') :: N' => guard_eqb g h && String.eqb (listpre k) pre && String.eqb f f' && names_compat listpre S' N'
+      | (h, NNameN pre f') :: N' => guard_eqb g h && String.eqb (listpre k) pre && String.eqb f f' && names_compat kname listpre S' N'
       | _ => false end
   end.
-Lemma map_expand render listpre k n j0 : map (slot_name render listpre) (expand k n j0) = map (render (listpre k)) (seq j0 n).
+Lemma map_expand render kname listpre k n j0 : map (slot_name render kname listpre) (expand k n j0) = map (render (listpre k)) (seq j0 n).
 Proof. revert j0; induction n; intros j0; cbn; [reflexivity|]. now rewrite IHn. Qed.
-Theorem names_alignment render listpre c : forall S N acc,
-  names_compat listpre S N = true ->
-  exec_flat (do_name render) c N acc = Some (acc ++ map (slot_name render listpre) (table c S))%list.
+Theorem names_alignment render kname listpre c : forall S N acc,
+  names_compat kname listpre S N = true ->
+  exec_flat (do_name render) c N acc = Some (acc ++ map (slot_name render kname listpre) (table c S))%list.
 Proof.
   induction S as [|[g l] S IH]; intros N acc Hc; cbn [names_compat] in Hc.
   - destruct N; [|discriminate]. cbn. now rewrite app_nil_r.
